@@ -223,7 +223,7 @@ func VerifC17BuildPart(root string, id uint64, seed int64, series, points int, b
 				{tag: "code", valueType: pbv1.ValueTypeInt64, value: convert.Int64ToBytes(int64(next() % 600))},
 			}}}
 			if next()%2 == 0 {
-				tfs = append(tfs, tagValues{tag: "data", values: []*tagValue{
+				tfs = append(tfs, tagValues{tag: "k8s:labels", values: []*tagValue{
 					{tag: "body", valueType: pbv1.ValueTypeBinaryData, value: append([]byte("payload-"), str...)},
 					{tag: "arr", valueType: pbv1.ValueTypeStrArr, valueArr: [][]byte{str, []byte("z")}},
 				}})
